@@ -154,7 +154,7 @@ def prepare(tier, seed):
     """Cross-process reproducibility: the digest of a few frames must be identical in a fresh interpreter."""
     probe = [([0, 3, 5], "s1c1", "dict"), ([0, 1, 2], "s2", "callable"), ([1, 6], "s1", "dict")]
     here = [_digest(_build(a, l, f, 10, [0.1, 0.9], 3)) for a, l, f in probe]
-    code = ("import warnings; warnings.simplefilter('ignore'); from mc.checks import c18; "
+    code = ("import os, sys; os.environ.get('VERIF_REPO') and sys.path.insert(0, os.environ['VERIF_REPO']); import warnings; warnings.simplefilter('ignore'); from mc.checks import c18; "
             "print([c18._digest(c18._build(a,l,f,10,[0.1,0.9],3)) for a,l,f in %r])" % (probe,))
     env = dict(os.environ)
     env.pop("PYTHONHASHSEED", None)
